@@ -365,4 +365,51 @@ theorem mapOK_unique {defs : List (Def K)} {sel : String → Bool} {k off : Nat}
       subst c1; subst c2
       exact ⟨rfl, rfl⟩
 
+/-! ### lookups -/
+
+theorem count_range' (k n s : Nat) : (List.range' k n).count s = if k ≤ s ∧ s < k + n then 1 else 0 := by
+  induction n generalizing k with
+  | zero => simp
+  | succ n ih =>
+    rw [List.range'_succ, List.count_cons, ih]
+    by_cases h : k = s
+    · subst h
+      have h1 : ¬ (k + 1 ≤ k ∧ k < k + 1 + n) := by omega
+      have h2 : (k ≤ k ∧ k < k + (n + 1)) := by omega
+      simp [h1, h2]
+    · have : (k == s) = false := by simp [h]
+      simp only [this]
+      by_cases h1 : k + 1 ≤ s ∧ s < k + 1 + n
+      · have h2 : k ≤ s ∧ s < k + (n + 1) := by omega
+        simp [h1, h2]
+      · have h2 : ¬ (k ≤ s ∧ s < k + (n + 1)) := by omega
+        simp [h1, h2]
+
+theorem tiles_lo_ge {off stop : Nat} {m : List Entry} (h : Tiles off m stop) : ∀ x ∈ m, off ≤ x.lo := by
+  induction h with
+  | nil => simp
+  | @cons e m off stop h1 h2 _ ih =>
+    intro x hx
+    cases hx with
+    | head => omega
+    | tail _ hx' => have := ih x hx'; omega
+
+theorem tiles_unique_container {off stop : Nat} {m : List Entry} (h : Tiles off m stop) (t : Nat)
+    (h1 : off ≤ t) (h2 : t < stop) : ∃ e, m.filter (·.contains t) = [e] := by
+  induction h with
+  | nil => omega
+  | @cons e m off stop hlo hle htl ih =>
+    by_cases ht : t < e.hi
+    · refine ⟨e, ?_⟩
+      have hc : e.contains t = true := by simp [Entry.contains]; omega
+      have hrest : m.filter (·.contains t) = [] := by
+        rw [List.filter_eq_nil_iff]
+        intro x hx
+        have := tiles_lo_ge htl x hx
+        simp [Entry.contains]; omega
+      simp [List.filter_cons, hc, hrest]
+    · have hc : e.contains t = false := by simp [Entry.contains]; omega
+      obtain ⟨e', he'⟩ := ih (by omega) h2
+      exact ⟨e', by simp [List.filter_cons, hc, he']⟩
+
 end QV.C21
